@@ -122,7 +122,7 @@ func newEnc(P *Program) *Enc {
 	e.decl("sort:Unit", "(declare-datatypes ((Unit 0)) (((unit))))")
 	// position of element i of a slice inside its backing array; kept as a function symbol so
 	// that quantifier triggers contain no arithmetic
-	e.decl("fn:idx", "(declare-fun idx (Slice Int) Int)")
+	e.decl("fn:idx", "(declare-fun idx (Int Int) Int)")
 	e.decl("fn:str_len", "(declare-fun str_len (Str) Int)")
 	e.decl("fn:str_lt", "(declare-fun str_lt (Str Str) Bool)")
 	e.decl("fn:str_concat", "(declare-fun str_concat (Str Str) Str)")
@@ -657,7 +657,7 @@ func (e *Enc) heapSortOf(name string) string {
 
 // baseAxioms are included only when the symbols they constrain occur in the script.
 var baseAxioms = []struct{ sym, ax string }{
-	{"(idx ", "(assert (forall ((s Slice) (i Int)) (! (= (idx s i) (+ (s_off s) i)) :pattern ((idx s i)))))"},
+	{"(idx ", "(assert (forall ((o Int) (i Int)) (! (= (idx o i) (+ o i)) :pattern ((idx o i)))))"},
 	{"iface_", "(assert (= (iface_tag iface_nil) 0))"},
 	{"iface_", "(assert (forall ((i Iface)) (! (=> (= (iface_tag i) 0) (= i iface_nil)) :pattern ((iface_tag i)))))"},
 	{"str_len", "(assert (forall ((s Str)) (! (>= (str_len s) 0) :pattern ((str_len s)))))"},
